@@ -74,7 +74,10 @@ impl Roundable for i128 {
     }
 
     fn compare_remainder(dividend: Self, divisor: Self) -> Option<Ordering> {
-        Some((dividend.abs() % divisor).cmp(&(divisor / 2)))
+        // Compare d1 = x - r1 with d2 = r2 - x exactly; halving the divisor would
+        // truncate the midpoint of an odd increment.
+        let remainder = dividend.abs() % divisor;
+        Some(remainder.cmp(&(divisor - remainder)))
     }
 
     fn is_even_cardinal(dividend: Self, divisor: Self) -> bool {
